@@ -50,6 +50,23 @@ CHECKS["C02"] = dict(
     text="TLC explores a graceful close, an abrupt loss or a corrupted chunk at every point of every interleaving of the protocol model; on the real code a tiny transfer is repeated with the fault injected at every byte position of every stream and direction (thorough: stride 1), every payload/CRC byte flipped, each side cancelled at every 8-byte step and the source/sink damaged; the oracle is the pair of return values, the receiver's per-file confirmations and the output-tree digest.",
     note="trusted: TLC, vnet's fault semantics (connection error texts follow quic-go), the 6 s watchdog")
 
+_R = "TLA+ spec Resume.tla (output-file chunks, in-memory bitmap, sidecar and temp file, two chunk writers, phase-split flusher, Kill in every state, restart and sender plan) checked exhaustively with TLC"
+CHECKS["C05"] = dict(
+    category="fault_enumeration", design_ref="5.2",
+    technique=_R + "; real receiver process SIGKILLed at every hook point / hit, write faults, and an in-process post-mortem observer; disk inspected with the real LoadSidecar",
+    text="TLC shows that in every reachable state (every kill point of every interleaving of two writers with snapshot / temp-file / rename) a readable sidecar marks only chunks present in the file and that the final name is never torn, and refutes mark-before-write and flush-in-place. On the real code a receiver process kills itself at the k-th hit of each hook point (with and without a concurrent flush), writes fail at every half-chunk boundary, and an observer performs the post-mortem continuously during transfers with racing flushers.",
+    note="trusted: TLC, SIGKILL semantics (page cache kept), hook placement")
+CHECKS["C04"] = dict(
+    category="fault_enumeration", design_ref="5.2",
+    technique=_R + "; every kill is followed by a real resumed run (digest, advertised bitmap vs sidecar on disk, chunks framed again); all consistent on-disk states (2^n bitmaps) built with the real Sidecar API and resumed",
+    text="TLC shows that after any chain of up to 3 kills a completed run leaves every chunk good, that the advertised bitmap equals the persisted one and that a run can always complete. On the real code each kill of the enumeration is followed by a resumed run over loopback QUIC that must succeed with an identical tree; FileResumeInfo frames captured on the sender's control stream are compared with the sidecars found after the kill; every bitmap of a 5- (thorough 7-) chunk file is resumed.",
+    note="trusted: TLC, loopback QUIC, the tap on the sender's control stream")
+CHECKS["C06"] = dict(
+    category="fault_enumeration", design_ref="5.2",
+    technique=_R + " from tampered initial states; every single-bit flip / truncation / garbage / foreign identity of a real sidecar and every damage class of the data file applied to a real interrupted directory, then LoadSidecar and a real resumed transfer",
+    text="TLC starts Resume.tla from every combination of {absent, garbage, foreign, valid(any bitmap)} sidecar with {present, deleted/shortened} data file and a torn highest chunk, and refutes the pinned commit's trust in a sidecar whose data file is gone. The real code is run from each concretised state (thorough: all 392 bit flips, 49 truncations, garbage, foreign fields, truncation around every chunk boundary, torn chunks, completed-file-with-torn-last-chunk) and must end identical or fail loudly.",
+    note="trusted: TLC; covers flips/truncations of one valid sidecar and sampled garbage, not arbitrary byte strings")
+
 NOT_APPLICABLE = {}
 
 HOOK_COMMITS = ["6b59734", "6335744"]
